@@ -20,7 +20,7 @@ RDV = "src/wormhole/_rendezvous.py"
 
 
 def r1(tree, rep, tier):
-    sums = a3common.explorations(tree, tier, rep.seed, rep)
+    sums = a3common.explorations(tree, tier, rep.seed, rep, extra=("reentrant",))
     a3common.fill_extra(rep, sums)
     for envname, s in sums.items():
         bad = [v for v in s.viol if v["kind"] in ("NoTransition", "Assert", "Raise", "no-instance", "second-instance")]
@@ -259,3 +259,5 @@ MUTANTS.append(Mutant("nameplates-list-or-set", RDV, "        self._L.rx_namepla
                       "two cooperating sites: a list is handed on where a set is merged with |",
                       also=(("src/wormhole/_input.py", "        # we get a set of nameplate id strings\n",
                              "        # we get a set of nameplate id strings\n        if self._all_nameplates:\n            all_nameplates = all_nameplates | self._all_nameplates\n"),)))
+MUTANTS.append(Mutant("del-M-S4-got_mailbox", _M, "    S4.upon(got_mailbox, enter=S4, outputs=[])\n", "", "C14.R1",
+                      "finding F21 put back: close() from the wordlist callback, then got_mailbox"))
